@@ -683,6 +683,10 @@ def methods_for(kind, quick):
     add("rescale()", lambda o, p: o.rescale(), short=True)
     if not is_multi:
         add("rescale(weights=2.0)", lambda o, p: o.rescale(weights=2.0))
+    else:
+        # user-supplied weights, 0 = "estimate this one": an array and a list (both are inputs: they stay as given)
+        add("rescale(weights=array with zeros)", lambda o, p: o.rescale(weights=p["weights"]), other="weights")
+        add("rescale(weights=list with zeros)", lambda o, p: o.rescale(weights=p["weights_list"]), other="weights_list")
     add("inner_product()", lambda o, p: o.inner_product(), short=True)
     if is_multi:
         add("inner_product(noise_variance=zeros)", lambda o, p: o.inner_product(noise_variance=np.zeros(len(o.data))))
@@ -726,6 +730,11 @@ def aux_for(kind, obj, seed, need):
         if hasattr(other, "values") and isinstance(other.values, np.ndarray):
             other.values[...] = other.values * 0.5 + 1.0
         return {"other": other}
+    if need in ("weights", "weights_list"):
+        w = np.zeros(len(obj.data))
+        if len(w) > 1:
+            w[-1] = 2.5
+        return {need: w if need == "weights" else [float(v) for v in w]}
     if need == "mean":
         with warnings.catch_warnings():
             warnings.simplefilter("ignore")
